@@ -1,4 +1,5 @@
 import Pamqp.Spec.Defs
+import Pamqp.Proofs.Envelope
 /-!
 # C06 — decoding consumes exactly one frame and ignores what follows it
 -/
@@ -9,7 +10,7 @@ open Pamqp
 theorem C06_prefix_determines (cat : Cat) (bs : Bytes) (n ch : Nat) (f : AnyFrame)
     (h : Frame.unmarshal cat bs = .ok (n, ch, f)) :
     n ≤ bs.length ∧ ∀ rest, Frame.unmarshal cat (bs.take n ++ rest) = .ok (n, ch, f) := by
-  sorry
+  exact Proofs.unmarshal_prefix_determines cat bs n ch f h
 
 /-- whenever decoding succeeds on ANY input: a protocol header only for input starting with
 `AMQP`, consuming 8 bytes on channel 0; otherwise kind, channel and consumed count are the ones
@@ -20,7 +21,7 @@ theorem C06_envelope (cat : Cat) (bs : Bytes) (n ch : Nat) (f : AnyFrame)
     (Spec.isProtocolHeader f = false ∧ 7 ≤ bs.length ∧
       Spec.kindOctet f = unbe (slice bs 0 1) ∧ ch = unbe (slice bs 1 3) ∧
       n = unbe (slice bs 3 7) + 8 ∧ n ≤ bs.length ∧ (bs.drop (n - 1)).head? = some Frame.frameEnd) := by
-  sorry
+  exact Proofs.unmarshal_ok_envelope cat bs n ch f h
 
 /-- a concatenation of frames, each of which decodes to itself whatever follows it, decodes by
 repeatedly dropping the consumed bytes to exactly those frames in order, leaving an empty buffer -/
@@ -28,6 +29,6 @@ theorem C06_stream (cat : Cat) (frames : List (Bytes × Nat × AnyFrame))
     (h : ∀ e ∈ frames, e.1 ≠ [] ∧ ∀ rest, Frame.unmarshal cat (e.1 ++ rest) = .ok (e.1.length, e.2.1, e.2.2))
     (fuel : Nat) (hf : frames.length < fuel) :
     Spec.decodeAll cat fuel (frames.flatMap (·.1)) = some (frames.map (·.2)) := by
-  sorry
+  exact Proofs.decodeAll_stream cat frames h fuel hf
 
 end Pamqp.Props
